@@ -432,8 +432,69 @@ pub fn check_reader_hostile(shape: &Shape, input: &[u8], sched: &Sched, scratch_
     Ok(())
 }
 
+/// One transient-looking reader error (WouldBlock / TimedOut / ...) in the middle of a message, more data behind it:
+/// the decoder reports an error - or, if it chooses to carry on, returns exactly the value and consumes exactly the message.
+pub fn check_reader_transient(shape: &Shape, value: &Value, fail_at: usize, kind_idx: usize, chunk: usize, l: &mut Local) -> CaseResult {
+    const KINDS: [std::io::ErrorKind; 4] = [std::io::ErrorKind::WouldBlock, std::io::ErrorKind::TimedOut, std::io::ErrorKind::ConnectionReset, std::io::ErrorKind::UnexpectedEof];
+    let Ok(e) = ref_encode(shape, value) else { return Ok(()) };
+    if e.bytes.is_empty() {
+        return Ok(());
+    }
+    let fail_at = fail_at % e.bytes.len();
+    let kind = KINDS[kind_idx % KINDS.len()];
+    // the stream continues with a second copy of the message (data follows the one being decoded)
+    let mut stream = e.bytes.clone();
+    stream.extend_from_slice(&e.bytes);
+    let cj = || {
+        let mut j = case_json(shape, value);
+        j["what"] = json!("reader-transient");
+        j["fail_at"] = json!(fail_at);
+        j["kind"] = json!(kind_idx);
+        j["chunk"] = json!(chunk);
+        j
+    };
+    for eio in [false, true] {
+        let who = if eio { "from_eio" } else { "from_io" };
+        l.eval();
+        let mut scratch = vec![0u8; e.bytes.len() + 16];
+        let mut rd = crate::iodoubles::TransientReader::new(&stream, chunk, fail_at, kind);
+        let (r, log) = with_shape(shape, || {
+            no_panic(|| {
+                if eio {
+                    postcard::from_eio::<Dyn, _>((&mut rd, &mut scratch[..])).map(|(d, _)| d)
+                } else {
+                    postcard::from_io::<Dyn, _>((&mut rd, &mut scratch[..])).map(|(d, _)| d)
+                }
+            })
+        });
+        if log.skipped_zero_width {
+            l.skipped += 1;
+            return Ok(());
+        }
+        let r = r.map_err(|p| fail("io", format!("{} panicked when the reader reported {:?} at offset {}: {}", who, kind, fail_at, p), cj()))?;
+        match r {
+            Err(_) => {}
+            Ok(Dyn(v)) => {
+                if v != *value || rd.pos != e.bytes.len() {
+                    return Err(fail(
+                        "io",
+                        format!("{}: the reader reported {:?} at offset {} of the message; decoding went on and returned {:?} after {} bytes (message: {:?}, {} bytes)", who, kind, fail_at, v, rd.pos, value, e.bytes.len()),
+                        cj(),
+                    ));
+                }
+            }
+        }
+    }
+    l.class("reader-transient-error");
+    l.nontrivial(&(&e.bytes, fail_at, kind_idx % 4, chunk, 12u8));
+    Ok(())
+}
+
 pub fn replay(case: &Json, l: &mut Local) -> CaseResult {
     let shape = shape_of(case);
+    if case["what"].as_str() == Some("reader-transient") {
+        return check_reader_transient(&shape, &value_of(case), case["fail_at"].as_u64().unwrap_or(0) as usize, case["kind"].as_u64().unwrap_or(0) as usize, case["chunk"].as_u64().unwrap_or(1) as usize, l);
+    }
     if case["what"].as_str() == Some("reader-hostile") {
         let sched: Sched = serde_json::from_value(case["sched"].clone()).unwrap_or(Sched { chunks: vec![], interrupt_every: 0 });
         return check_reader_hostile(&shape, &crate::runner::unhex(case["input"].as_str().unwrap_or("")), &sched, case["scratch"].as_u64().unwrap_or(0) as usize, l);
@@ -464,7 +525,7 @@ pub fn run(ctx: &Ctx) {
          messages through one reader and scratch. oracle: writer receives exactly the reference encoding, a prefix on failure, \
          flush last; reader value == slice-path value, reader position == encoded length, borrowed fields disjoint/in order/inside \
          the scratch, returned scratch is the tail, Err (never panic) on faults or too-small scratch, success monotone in scratch \
-         size, must fail below the borrowed total and succeed at the encoded length; with one length prefix replaced by a hostile value (usize::MAX-k, 2^63+k, 2^32, 2^16, len+k, k) the reader path answers like the slice path and never panics. non-trivial = fault strictly inside a message, \
+         size, must fail below the borrowed total and succeed at the encoded length; with one length prefix replaced by a hostile value (usize::MAX-k, 2^63+k, 2^32, 2^16, len+k, k) the reader path answers like the slice path and never panics; one transient-looking reader error (WouldBlock/TimedOut/...) inside a message with more data behind it gives Err, or exactly the value with exact consumption; writer-side sweep over every str/bytes length 0..=600 followed by one-byte / varint / float fields. non-trivial = fault strictly inside a message, \
          or >= 2 messages on one stream; distinct = hash(adapter, fault, stream, schedule)",
     );
     ctx.assume("scratch demand of a message = its borrowed str/bytes payloads + 4/8 bytes per f32/f64 + 4 per char (what the decoder routes through the scratch buffer); a scratch of that size is taken to be large enough");
@@ -529,6 +590,44 @@ pub fn run(ctx: &Ctx) {
             Ok(())
         },
     );
+    ctx.par_proptest(
+        "reader-transient-errors",
+        n * 2,
+        || {
+            let shapes = borrowing_shapes();
+            (0..shapes.len() + 2, any::<u16>(), 0usize..4, prop_oneof![Just(1usize), Just(2), Just(3), Just(7), Just(1000)]).prop_flat_map(move |(si, at, kind, chunk)| {
+                let s = if si < shapes.len() { Just(shapes[si].clone()).boxed() } else { gen::arb_shape(ShapeCfg { depth: 3, ..ShapeCfg::default() }) };
+                s.prop_flat_map(move |s| {
+                    let v = gen::arb_value(&s, ValCfg { max_len: 30, max_seq: 3 });
+                    (Just(s), v, Just(at as usize), Just(kind), Just(chunk))
+                })
+            })
+        },
+        |(s, v, at, kind, chunk), l| check_reader_transient(s, v, *at, *kind, *chunk, l),
+    );
+    // payload length sweep on the writer side: every str/bytes length 0..=600 followed by a one-byte / varint / float field
+    {
+        let kinds = 6u64;
+        ctx.par_range("writer-length-sweep", 601 * kinds, move |i, l| {
+            let n = (i / kinds) as usize;
+            let (s, v): (Shape, Value) = match i % kinds {
+                0 => (Shape::Tuple(vec![Shape::Str, Shape::Bool]), Value::List(vec![Value::Str("x".repeat(n)), Value::Bool(true)])),
+                1 => (Shape::Tuple(vec![Shape::ByteBuf, Shape::U8]), Value::List(vec![Value::Bytes(vec![0xA5; n]), Value::U(7)])),
+                2 => (
+                    Shape::Tuple(vec![Shape::String, Shape::Option(Box::new(Shape::I8))]),
+                    Value::List(vec![Value::Str("y".repeat(n)), Value::Some(Box::new(Value::I(-1)))]),
+                ),
+                3 => (Shape::Tuple(vec![Shape::Bytes, Shape::U32]), Value::List(vec![Value::Bytes(vec![1; n]), Value::U(70000)])),
+                4 => (Shape::Tuple(vec![Shape::U8, Shape::Str, Shape::F32]), Value::List(vec![Value::U(1), Value::Str("z".repeat(n)), Value::F32(0x3FC0_0000)])),
+                _ => (
+                    Shape::Seq(Box::new(Shape::Tuple(vec![Shape::Str, Shape::I8]))),
+                    Value::List(vec![Value::List(vec![Value::Str("w".repeat(n)), Value::I(-3)]), Value::List(vec![Value::Str("w".repeat(n / 2)), Value::I(5)])]),
+                ),
+            };
+            let sched = Sched { chunks: vec![[1usize, 3, 16, 4096][n % 4], 5], interrupt_every: if n % 3 == 0 { 4 } else { 0 } };
+            check_writer(&s, &v, &sched, l)
+        });
+    }
     ctx.par_proptest(
         "reader-borrowing-types",
         n,
